@@ -78,6 +78,68 @@ type Val struct {
 	Fams      hexb    `json:"families,omitempty"` // (family, version) pairs
 }
 
+// MarshalJSON writes only the members the kind uses (all of them, also when zero).
+func (v Val) MarshalJSON() ([]byte, error) {
+	m := map[string]interface{}{"kind": v.Kind}
+	in := func(k string, list ...string) bool {
+		for _, x := range list {
+			if x == k {
+				return true
+			}
+		}
+		return false
+	}
+	if in(v.Kind, "ConnRes", "ConnStateReq", "ConnStateRes", "DiscReq", "DiscRes", "TunnelReq", "TunnelRes") {
+		m["channel"] = v.Channel
+	}
+	if in(v.Kind, "TunnelReq", "TunnelRes") {
+		m["seq_number"] = v.SeqNo
+	}
+	if in(v.Kind, "ConnRes", "ConnStateReq", "ConnStateRes", "DiscReq", "DiscRes", "TunnelRes") {
+		m["status"] = v.Status
+	}
+	if in(v.Kind, "SearchReq", "DescriptionReq", "SearchRes", "ConnReq", "ConnRes", "ConnStateReq", "DiscReq", "HostInfo") {
+		m["host"] = v.H1
+	}
+	if v.Kind == "ConnReq" {
+		m["host2"], m["layer"] = v.H2, v.Layer
+	}
+	raw := in(v.Kind, "LRaw", "LBusmonInd", "UnsupportedMessage")
+	if v.carriesMessage() {
+		m["msg"] = v.Msg
+		raw = !v.isLData()
+	}
+	if raw {
+		m["raw"] = v.Raw
+		if v.Msg == "Unsupported" || v.Kind == "UnsupportedMessage" {
+			m["code"] = v.Code
+		}
+	}
+	if v.hasInfo() {
+		m["info"] = v.Info
+	}
+	if v.hasLData() {
+		m["ctrl1"], m["ctrl2"], m["src"], m["dst"] = v.C1, v.C2, v.Src, v.Dst
+	}
+	if v.hasUnit() {
+		m["unit"], m["numbered"], m["tpci_seq"], m["cmd"] = v.Unit, v.Numbered, v.TSeq, v.Cmd
+		if v.Unit != "ctl" {
+			m["data"] = v.Data
+		}
+	}
+	if v.hasDevice() {
+		m["dev_type"], m["medium"], m["dev_status"], m["source"], m["project"] = v.DevType, v.Medium, v.DevStatus, v.Source, v.Project
+		m["serial"], m["mcast"], m["mac"], m["name"] = v.Serial, v.Mcast, v.MAC, v.Name
+	}
+	if v.hasFamilies() {
+		m["fam_type"] = v.FamType
+	}
+	if v.hasFamilies() || v.Kind == "ServiceFamily" {
+		m["families"] = v.Fams
+	}
+	return json.Marshal(m)
+}
+
 var serviceKinds = map[string]uint16{
 	"SearchReq": refenc.SearchReqID, "SearchRes": refenc.SearchResID, "DescriptionReq": refenc.DescrReqID, "DescriptionRes": refenc.DescrResID,
 	"ConnReq": refenc.ConnReqID, "ConnRes": refenc.ConnResID, "ConnStateReq": refenc.ConnStateReqID, "ConnStateRes": refenc.ConnStateResID,
